@@ -980,7 +980,7 @@ def work_item(args):
     plan not seen before, cross-check model and engine on the concrete database.  -> dict"""
     (binary, workdir, prop, sid, body, no_decomp, profile, seed, schedule, rules, seen_keys) = args
     res = {"shape": sid, "body": body, "no_decomp": no_decomp, "profile": profile[0], "seed": seed,
-           "schedule": "".join(r[0] for r in schedule),
+           "schedule": "".join(r[0] for r in schedule) + ("c" if "__companion__" in rules else ""),
            "plans": [], "errors": [], "violations": [], "sanity": [], "chain": [], "cover": [], "solver_s": 0.0, "queries": 0}
     try:
         atoms = gen.parse_body(body)
@@ -1004,6 +1004,15 @@ def work_item(args):
         # the executor's large-subset paths (cached trie nodes, index choice, dynamic re-sorting), which the
         # small-range comparison cannot see.  Only for monotone histories (no subsumption, no unions).
         exp_full = {}
+        companion = None
+        cbody = rules.get("__companion__")
+        rules = {k_: v_ for k_, v_ in rules.items() if k_ != "__companion__"}
+        if cbody:
+            catoms = gen.parse_body(cbody)
+            for nm, sg in catoms.types.items():
+                if atoms.types.get(nm) != sg:
+                    raise ValueError("companion body uses %s with another signature" % nm)
+            companion = (catoms, gen.head_vars(cbody), "main")
         if prop in ("C02", "C03") and not res["unions"]:
             ident = {nm: nm for nm in atoms.types}
             pdb = profile_db(atoms, profile, seed, ident)
@@ -1015,15 +1024,21 @@ def work_item(args):
                 ef = eval_body(atoms, ident, fdb, small_only=False, head=head)
                 if len(ef) <= 30000:
                     exp_full[outrel] = ef
+            if companion:
+                last = max([k_ for k_, r_ in enumerate(schedule) if r_ == companion[2]], default=None)
+                fdb = merged(pdb, db_at_step(placed, last, None, ident, 0))
+                ef = eval_body(companion[0], ident, fdb, small_only=False, head=companion[1])
+                if len(ef) <= 30000:
+                    exp_full["OutC"] = ef
             tail = (tail or []) + ["(print-function %s 40000)" % o for o in sorted(exp_full)]
-        text = gen.render_program(atoms, no_decomp, profile, steps, seed=seed, rules=rules, head=head, tail=tail)
+        text = gen.render_program(atoms, no_decomp, profile, steps, seed=seed, rules=rules, head=head, tail=tail, companion=companion)
         rc, out, err, events = run_program(binary, text, workdir, tag)
         check_failed = False
         if prop == "C13" and rc != 0 and "Check failed" in err:
             # the check did not hold: everything before it still ran and was dumped; printed tables are missing,
             # so re-run without the check to read them
             check_failed = True
-            text2 = gen.render_program(atoms, no_decomp, profile, steps, seed=seed, rules=rules, head=head, tail=None)
+            text2 = gen.render_program(atoms, no_decomp, profile, steps, seed=seed, rules=rules, head=head, tail=None, companion=companion)
             rc, out, err2, _ = run_program(binary, text2, workdir, tag + "_nocheck")
         if rc != 0:
             if rc == 101 or "panicked at" in err:
@@ -1254,6 +1269,9 @@ def configs_for(prop, tier, seed):
         rules = {"main": ("Out", "")}
         for sid, body in shapes:
             cfgs = [(nd, prof, sd, ["main", "main"], rules) for nd in (False, True) for prof in profiles for sd in seeds]
+            if sid in gen.COMPANIONS:
+                crules = {"main": ("Out", ""), "__companion__": gen.COMPANIONS[sid]}
+                cfgs += [(nd, prof, sd, ["main", "main"], crules) for nd in (False,) for prof in profiles for sd in seeds]
             items.append((sid, body, cfgs))
     elif prop == "C03":
         scheds = C03_SCHEDULES_QUICK if quick else C03_SCHEDULES_THOROUGH
